@@ -293,19 +293,22 @@ def _recheck_case(case, clause):
         return clause == "unexpected-exception"
 
 
-def run_units(mod, units, nproc=None):
+def run_units(mod, units, nproc=None, only=None):
     """Execute every unit (in parallel, deterministic merge order)."""
     global _MOD, _NUNITS
     _MOD = mod
     _NUNITS = len(units)
     total = Acc()
     nproc = nproc or NPROC
-    if nproc <= 1 or len(units) <= 1:
-        res = [_run_unit(x) for x in enumerate(units)]
+    todo = list(enumerate(units))
+    if only is not None:
+        todo = [x for x in todo if x[0] in only]
+    if nproc <= 1 or len(todo) <= 1:
+        res = [_run_unit(x) for x in todo]
     else:
         ctx = mp.get_context("fork")
-        with ctx.Pool(min(nproc, len(units)), maxtasksperchild=1) as pool:  # every unit starts from the parent's clean state
-            res = pool.map(_run_unit, list(enumerate(units)), chunksize=1)
+        with ctx.Pool(min(nproc, len(todo)), maxtasksperchild=1) as pool:  # every unit starts from the parent's clean state
+            res = pool.map(_run_unit, todo, chunksize=1)
     for _, acc in sorted(res, key=lambda r: r[0]):
         total.merge(acc)
     return total
@@ -437,7 +440,25 @@ def run_check(pid, tier, seed):
     if hasattr(mod, "prepare"):
         mod.prepare(tier, seed)
     units = mod.units(tier, seed)
+    if os.environ.get("FMC_SUBRUN"):
+        # a sub-run in another interpreter mode (python -O): a few units only, violations dumped for the parent, nothing else written
+        only = {int(i) for i in os.environ["FMC_ONLY_UNITS"].split(",")}
+        acc = run_units(mod, units, only=only)
+        findings = load_findings(pid)
+        out = []
+        for v in acc.viol:
+            try:
+                cls = mod.classify(v["case"], v["clause"], v["sig"], v["detail"]) if hasattr(mod, "classify") else "-"
+            except Exception:
+                cls = "-"
+            if match_finding(findings, v["clause"], v["sig"], cls) is None:
+                out.append(v)
+        with open(os.environ["FMC_DUMP"], "w") as f:
+            json.dump(out, f, default=str)
+        return 0
     acc = run_units(mod, units)
+    if getattr(mod, "OPTIMIZED_SUBRUN", True) and len(units) > 0:
+        _optimized_subrun(pid, tier, seed, units, acc)
     extra = mod.extra(tier, seed, acc) if hasattr(mod, "extra") else None
 
     findings = load_findings(pid)
@@ -467,7 +488,7 @@ def run_check(pid, tier, seed):
     _MOD = mod
     ctx = mp.get_context("fork")
     for v, cls in real[:40]:
-        if v["clause"] == "timeout" or getattr(mod, "NO_RECHECK", False):
+        if v["clause"] == "timeout" or getattr(mod, "NO_RECHECK", False) or v.get("optimized"):
             confirmed.append((v, cls))
             continue
         with ctx.Pool(1) as pool:
@@ -503,6 +524,43 @@ def run_check(pid, tier, seed):
         f"violations={len(real)} known={sum(v['n'] for v in known.values())} wall={wall:.1f}s"
     )
     return 1 if real else 0
+
+
+def _optimized_subrun(pid, tier, seed, units, acc):
+    """The interpreter's -O switch (PYTHONOPTIMIZE) removes assert statements and must change no result: up to six units,
+    evenly spread, are run again in a `python -O` interpreter; a violation there that the normal run of the same unit
+    did not have is reported (after it showed in two separate -O interpreters)."""
+    import subprocess
+    import tempfile
+
+    n = len(units)
+    pick = sorted({round(i * (n - 1) / 5) for i in range(6)}) if n > 6 else list(range(n))
+    normal = {(v.get("unit"), v["clause"], json.dumps(v["case"], sort_keys=True, default=str)) for v in acc.viol}
+    seen = None
+    for attempt in range(2):
+        with tempfile.NamedTemporaryFile(suffix=".json", delete=False) as tf:
+            dump = tf.name
+        env = dict(os.environ, FMC_SUBRUN="1", FMC_ONLY_UNITS=",".join(map(str, pick)), FMC_DUMP=dump, FMC_REPO=REPO, VERIF_SEED=str(seed), PYTHONDONTWRITEBYTECODE="1")
+        r = subprocess.run([sys.executable, "-O", "-m", "fmc", "check", pid, "--tier", tier], cwd=VERIF, env=env, capture_output=True, text=True)
+        try:
+            got = json.load(open(dump))
+        except Exception:
+            got = [{"clause": "optimized-subrun-failed", "sig": "subrun", "case": {"units": pick}, "detail": (r.stderr or r.stdout)[-400:], "unit": None}]
+        finally:
+            try:
+                os.unlink(dump)
+            except OSError:
+                pass
+        keyed = {(v.get("unit"), v["clause"], json.dumps(v["case"], sort_keys=True, default=str)): v for v in got}
+        seen = keyed if seen is None else {k: v for k, v in seen.items() if k in keyed}
+        if not seen:
+            break
+    acc.bulk(len(pick), "units-rerun-under-python-O")
+    for k, v in (seen or {}).items():
+        if k in normal:
+            continue
+        acc.violation("under-python-O:" + v["clause"], v["sig"], v["case"], "only when the interpreter runs with -O / PYTHONOPTIMIZE (assert statements removed): " + v["detail"])
+        acc.viol[-1]["optimized"] = True
 
 
 def replay(path):
